@@ -43,6 +43,10 @@ use std::hash::{Hash, Hasher};
 use std::sync::Arc;
 use std::time::Duration;
 
+thread_local! {
+    static LAST_PANIC: std::cell::RefCell<String> = const { std::cell::RefCell::new(String::new()) };
+}
+
 type Sealed = Entry<EntrySealed, EntryCommitted>;
 type NewE = Entry<EntryInit, EntryNew>;
 
@@ -371,6 +375,7 @@ enum Op {
     Batch(Vec<(u64, Vec<M>)>),
     Delete(u64),
     Revive(u64),
+    Raise(u32),
     Repl(usize, usize),
 }
 
@@ -465,6 +470,7 @@ fn exec(qs: &QueryServer, rt: &tokio::runtime::Runtime, ct: Duration, cx: &Ctx, 
                 Err(e) => Err(e),
             }
         }
+        Op::Raise(l) => w.domain_raise(*l),
         Op::Repl(..) => unreachable!(),
     };
     match r {
@@ -490,9 +496,31 @@ fn exec_repl(qs: &[QueryServer], rt: &tokio::runtime::Runtime, ct: Duration, fro
 
 #[derive(Clone, Copy, PartialEq, Eq, Debug)]
 enum Kind {
+    /// target domain level, shipped schema only
     Single,
+    /// domain level 14, where the schema is still loaded from the stored attributetype / classtype
+    /// entries: schema additions through ordinary operations
+    Legacy,
+    /// like Legacy plus narrowing schema edits (outside the quantifier, observed only)
     Narrow,
+    /// two servers at the target level with replication
     Pair,
+    /// boots one level below the target and raises the domain level in mid-history: the schema
+    /// additions of a migration
+    Upgrade,
+}
+
+impl Kind {
+    fn custom_schema(self) -> bool {
+        matches!(self, Kind::Legacy | Kind::Narrow)
+    }
+    fn boot_level(self) -> u32 {
+        match self {
+            Kind::Legacy | Kind::Narrow => DOMAIN_LEVEL_14,
+            Kind::Upgrade => DOMAIN_PREVIOUS_TGT_LEVEL,
+            _ => DOMAIN_TGT_LEVEL,
+        }
+    }
 }
 
 #[derive(Clone, Debug)]
@@ -516,12 +544,43 @@ struct Ent {
     custom: Vec<usize>,
 }
 
+#[derive(Clone, Debug)]
+enum Pending {
+    None,
+    Ent(Ent),
+    Attr(CustomAttr, u64),
+    Class(CustomClass, u64),
+    AddMay(usize, usize),
+    Deleted(u64),
+    Revived(u64),
+}
+
 struct Gen {
     tag: String,
+    kind: Kind,
+    heavy: bool,
+    rng: Rng,
     attrs: Vec<CustomAttr>,
+    attr_slot: Vec<u64>,
     classes: Vec<CustomClass>,
+    class_slot: Vec<u64>,
     ents: Vec<Ent>,
+    deleted: Vec<Ent>,
     next: u64,
+    produced: u64,
+    target: u64,
+    pending: Pending,
+    queued: Option<(Op, Meta)>,
+}
+
+/// what the runner needs to know about an operation beyond the operation itself
+#[derive(Clone, Debug, Default)]
+struct Meta {
+    schema_op: bool,
+    narrowing: Option<String>,
+    /// pair cases: the server this operation must run on, and whether replication may follow it
+    server: Option<usize>,
+    hold_repl: bool,
 }
 
 const CUSTOM_SYNTAX: [&str; 6] = ["UTF8STRING", "UTF8STRING_INSENSITIVE", "UTF8STRING_INAME", "BOOLEAN", "UINT32", "UUID"];
@@ -548,7 +607,7 @@ impl Gen {
         }
     }
     fn add_attr(&mut self, rng: &mut Rng) -> Op {
-        let k = self.attrs.len();
+        let k = self.next;
         let a = CustomAttr { name: format!("c15{}a{k}", self.tag), syntax: CUSTOM_SYNTAX[rng.below(6) as usize], multivalue: rng.chance(1, 2) };
         let id = self.next;
         self.next += 1;
@@ -563,11 +622,11 @@ impl Gen {
                 ("syntax".into(), vec![V::Syntax(a.syntax.into())]),
             ],
         );
-        self.attrs.push(a);
+        self.pending = Pending::Attr(a, id);
         op
     }
     fn add_class(&mut self, rng: &mut Rng) -> Op {
-        let k = self.classes.len();
+        let k = self.next;
         let mut c = CustomClass { name: format!("c15{}c{k}", self.tag), ..Default::default() };
         for i in 0..self.attrs.len() {
             match rng.below(4) {
@@ -589,7 +648,7 @@ impl Gen {
         if !c.may.is_empty() {
             avas.push(("may".into(), c.may.iter().map(|i| V::Iutf8(self.attrs[*i].name.clone())).collect()));
         }
-        self.classes.push(c);
+        self.pending = Pending::Class(c, id);
         Op::Create(id, avas)
     }
     /// uuid slot of the schema entry of class k / attribute k is not tracked: schema entries are
@@ -597,7 +656,7 @@ impl Gen {
     fn create_entry(&mut self, rng: &mut Rng, heavy: bool) -> Op {
         let id = self.next;
         self.next += 1;
-        let kind = rng.below(3) as u8;
+        let kind = if self.kind.custom_schema() { rng.below(3) as u8 } else { [0u8, 1, 3, 3, 0, 1][rng.below(6) as usize] };
         let nm = format!("c15{}e{id}", self.tag);
         let mut avas: Vec<(String, Vec<V>)> = vec![];
         let mut classes: Vec<V> = vec![V::Iutf8("object".into())];
@@ -619,6 +678,15 @@ impl Gen {
                     let t = self.ents[rng.below(self.ents.len() as u64) as usize].id;
                     avas.push(("member".into(), vec![V::Refer(t)]));
                 }
+            }
+            3 => {
+                // a posix person: gidnumber is generated by the plugin
+                classes.push(V::Iutf8("account".into()));
+                classes.push(V::Iutf8("person".into()));
+                classes.push(V::Iutf8("posixaccount".into()));
+                avas.push(("name".into(), vec![V::Iname(nm.clone())]));
+                avas.push(("displayname".into(), vec![V::Utf8(format!("Posix {id}"))]));
+                if rng.chance(2, 3) { avas.push(("loginshell".into(), vec![V::Iutf8("/bin/sh".into())])); }
             }
             _ => {
                 if rng.chance(1, 4) { classes.push(V::Iutf8("extensibleobject".into())); }
@@ -665,10 +733,9 @@ impl Gen {
                     }
                 }
                 3 => {
-                    // value of another type
-                    if let Some(x) = avas.iter_mut().find(|x| x.0 == "name") {
-                        x.1 = vec![V::Utf8("plain text".into())];
-                    } else if let Some(a) = self.attrs.first() {
+                    // value of another type (not on `name`: plugins read it through typed accessors
+                    // that carry debug assertions)
+                    if let Some(a) = self.attrs.first() {
                         let w = self.wrong_val(rng, a.syntax);
                         avas.retain(|x| x.0 != a.name);
                         avas.push((a.name.clone(), vec![w]));
@@ -699,7 +766,7 @@ impl Gen {
             }
         }
         avas.push(("class".into(), classes));
-        self.ents.push(Ent { id, kind, custom });
+        self.pending = Pending::Ent(Ent { id, kind, custom });
         Op::Create(id, avas)
     }
     fn mods(&mut self, rng: &mut Rng, e: &Ent, heavy: bool) -> Vec<M> {
@@ -708,7 +775,7 @@ impl Gen {
         if !bad {
             match rng.below(6) {
                 0 => ms.push(M::Set("description".into(), vec![V::Utf8(format!("desc {}", rng.below(1000)))])),
-                1 if e.kind == 0 => ms.push(M::Set("displayname".into(), vec![V::Utf8(format!("Renamed {}", rng.below(1000)))])),
+                1 if e.kind == 0 || e.kind == 3 => ms.push(M::Set("displayname".into(), vec![V::Utf8(format!("Renamed {}", rng.below(1000)))])),
                 2 if e.kind == 1 && !self.ents.is_empty() => {
                     let t = self.ents[rng.below(self.ents.len() as u64) as usize].id;
                     ms.push(M::Present("member".into(), V::Refer(t)));
@@ -781,85 +848,168 @@ impl Gen {
     }
 }
 
-/// the whole history of a case, derived from (seed, case, kind) only
-fn gen_history(seed: u64, case: u64, kind: Kind, heavy: bool) -> (Vec<Op>, Vec<(usize, String)>) {
-    let mut rng = Rng::for_case(seed ^ (kind as u64 + 1) * 0x5151, case);
-    let mut g = Gen { tag: format!("k{}x{case}", kind as u8), attrs: vec![], classes: vec![], ents: vec![], next: 1 };
-    let mut ops: Vec<Op> = vec![];
-    // narrowing edits are expressed as modifies of schema entries by slot; remember which op index
-    // performs which narrowing (for the report)
-    let mut narrow_at: Vec<(usize, String)> = vec![];
-    // slots of schema entries: attribute k -> slot, class k -> slot
-    let mut attr_slot: Vec<u64> = vec![];
-    let mut class_slot: Vec<u64> = vec![];
-    let n_ops = rng.range(18, 30);
-    // always start with a little schema so that custom entries exist early
-    for _ in 0..rng.range(2, 3) {
-        attr_slot.push(g.next);
-        ops.push(g.add_attr(&mut rng));
-    }
-    class_slot.push(g.next);
-    ops.push(g.add_class(&mut rng));
-    while (ops.len() as u64) < n_ops {
-        let r = rng.below(100);
-        if r < 6 && g.attrs.len() < 6 {
-            attr_slot.push(g.next);
-            ops.push(g.add_attr(&mut rng));
-        } else if r < 11 && g.classes.len() < 4 {
-            class_slot.push(g.next);
-            ops.push(g.add_class(&mut rng));
-        } else if r < 16 && !g.classes.is_empty() && !g.attrs.is_empty() {
-            // extension: one more `may` on a class (possibly in use)
-            let k = rng.below(g.classes.len() as u64) as usize;
-            let i = rng.below(g.attrs.len() as u64) as usize;
-            if !g.classes[k].may.contains(&i) && !g.classes[k].must.contains(&i) {
-                g.classes[k].may.push(i);
-                ops.push(Op::Modify(class_slot[k], vec![M::Present("may".into(), V::Iutf8(g.attrs[i].name.clone()))]));
-            }
-        } else if r < 50 || g.ents.is_empty() {
-            ops.push(g.create_entry(&mut rng, heavy));
-        } else if r < 78 {
-            let e = g.ents[rng.below(g.ents.len() as u64) as usize].clone();
-            let ms = g.mods(&mut rng, &e, heavy);
-            ops.push(Op::Modify(e.id, ms));
-        } else if r < 83 && g.ents.len() >= 2 {
-            let e1 = g.ents[rng.below(g.ents.len() as u64) as usize].clone();
-            let e2 = g.ents[rng.below(g.ents.len() as u64) as usize].clone();
-            let m1 = g.mods(&mut rng, &e1, heavy);
-            let m2 = g.mods(&mut rng, &e2, heavy);
-            if e1.id != e2.id {
-                ops.push(Op::Batch(vec![(e1.id, m1), (e2.id, m2)]));
-            }
-        } else if r < 91 {
-            let e = g.ents[rng.below(g.ents.len() as u64) as usize].clone();
-            ops.push(Op::Delete(e.id));
-        } else {
-            let e = g.ents[rng.below(g.ents.len() as u64) as usize].clone();
-            ops.push(Op::Revive(e.id));
+impl Gen {
+    fn new(seed: u64, case: u64, kind: Kind, heavy: bool) -> Gen {
+        let mut rng = Rng::for_case(seed ^ (kind as u64 + 1) * 0x5151, case);
+        let target = rng.range(18, 30);
+        Gen {
+            tag: format!("k{}x{case}", kind as u8),
+            kind,
+            heavy,
+            rng,
+            attrs: vec![],
+            attr_slot: vec![],
+            classes: vec![],
+            class_slot: vec![],
+            ents: vec![],
+            deleted: vec![],
+            next: 1,
+            produced: 0,
+            target,
+            pending: Pending::None,
+            queued: None,
         }
-        if kind == Kind::Narrow && ops.len() > 10 && rng.chance(1, 4) && !g.classes.is_empty() && !g.attrs.is_empty() {
-            let k = rng.below(g.classes.len() as u64) as usize;
-            let i = rng.below(g.attrs.len() as u64) as usize;
-            let c = g.classes[k].clone();
-            let a = g.attrs[i].clone();
+    }
+
+    /// the outcome of the operation handed out last
+    fn feedback(&mut self, ok: bool) {
+        let p = std::mem::replace(&mut self.pending, Pending::None);
+        if !ok {
+            return;
+        }
+        match p {
+            Pending::None => {}
+            Pending::Ent(e) => self.ents.push(e),
+            Pending::Attr(a, slot) => {
+                self.attrs.push(a);
+                self.attr_slot.push(slot);
+            }
+            Pending::Class(c, slot) => {
+                self.classes.push(c);
+                self.class_slot.push(slot);
+            }
+            Pending::AddMay(k, i) => self.classes[k].may.push(i),
+            Pending::Deleted(id) => {
+                if let Some(p) = self.ents.iter().position(|e| e.id == id) {
+                    let e = self.ents.remove(p);
+                    self.deleted.push(e);
+                }
+            }
+            Pending::Revived(id) => {
+                if let Some(p) = self.deleted.iter().position(|e| e.id == id) {
+                    let e = self.deleted.remove(p);
+                    self.ents.push(e);
+                }
+            }
+        }
+    }
+
+    /// the next operation of the history: a function of (seed, case, kind) and of the outcomes so far
+    fn next_op(&mut self) -> Option<(Op, Meta)> {
+        if let Some(q) = self.queued.take() {
+            return Some(q);
+        }
+        if self.produced >= self.target {
+            return None;
+        }
+        self.produced += 1;
+        let mut rng = self.rng.clone();
+        let r = self.step(&mut rng);
+        self.rng = rng;
+        Some(r)
+    }
+
+    fn step(&mut self, rng: &mut Rng) -> (Op, Meta) {
+        let heavy = self.heavy;
+        let schema = Meta { schema_op: true, ..Default::default() };
+        // a little schema first, so that custom entries exist early
+        if self.kind.custom_schema() && self.produced <= 2 {
+            return (self.add_attr(rng), schema);
+        }
+        if self.kind.custom_schema() && self.produced == 3 {
+            return (self.add_class(rng), schema);
+        }
+        if self.kind == Kind::Upgrade && self.produced == self.target / 2 {
+            return (Op::Raise(DOMAIN_TGT_LEVEL), schema);
+        }
+        if self.kind == Kind::Narrow && self.produced > 10 && rng.chance(1, 4) && !self.classes.is_empty() && !self.attrs.is_empty() {
+            let k = rng.below(self.classes.len() as u64) as usize;
+            let i = rng.below(self.attrs.len() as u64) as usize;
+            let c = self.classes[k].clone();
+            let a = self.attrs[i].clone();
+            let cs = self.class_slot[k];
             let (what, op) = match rng.below(5) {
-                0 => ("add-must", Op::Modify(class_slot[k], vec![M::Present("must".into(), V::Iutf8(a.name.clone()))])),
+                0 => ("add-must", Op::Modify(cs, vec![M::Present("must".into(), V::Iutf8(a.name.clone()))])),
                 1 => match c.may.first() {
-                    Some(j) => ("remove-may", Op::Modify(class_slot[k], vec![M::Removed("may".into(), V::Iutf8(g.attrs[*j].name.clone()))])),
-                    None => ("add-must", Op::Modify(class_slot[k], vec![M::Present("must".into(), V::Iutf8(a.name.clone()))])),
+                    Some(j) => ("remove-may", Op::Modify(cs, vec![M::Removed("may".into(), V::Iutf8(self.attrs[*j].name.clone()))])),
+                    None => ("add-must", Op::Modify(cs, vec![M::Present("must".into(), V::Iutf8(a.name.clone()))])),
                 },
-                2 => ("multivalue-off", Op::Modify(attr_slot[i], vec![M::Set("multivalue".into(), vec![V::Bool(false)])])),
-                3 => ("add-excludes", Op::Modify(class_slot[k], vec![M::Present("excludes".into(), V::Iutf8(if rng.chance(1, 2) { "group".into() } else { "person".into() }))])),
-                _ => ("delete-attribute", Op::Delete(attr_slot[i])),
+                2 => ("multivalue-off", Op::Modify(self.attr_slot[i], vec![M::Set("multivalue".into(), vec![V::Bool(false)])])),
+                3 => ("add-excludes", Op::Modify(cs, vec![M::Present("excludes".into(), V::Iutf8(if rng.chance(1, 2) { "group".into() } else { "person".into() }))])),
+                _ => ("delete-attribute", Op::Delete(self.attr_slot[i])),
             };
-            narrow_at.push((ops.len(), what.to_string()));
-            ops.push(op);
+            return (op, Meta { schema_op: true, narrowing: Some(what.to_string()), ..Default::default() });
         }
+        if self.kind == Kind::Pair && rng.chance(1, 6) {
+            // two individually valid edits on different servers that merge into an invalid entry:
+            // one side drops class posixaccount together with its attributes, the other sets one of them
+            if let Some(e) = self.ents.iter().find(|e| e.kind == 3).cloned() {
+                let drop = vec![
+                    M::Removed("class".into(), V::Iutf8("posixaccount".into())),
+                    M::Purged("gidnumber".into()),
+                    M::Purged("loginshell".into()),
+                ];
+                let set = vec![M::Set("loginshell".into(), vec![V::Iutf8(format!("/bin/sh{}", rng.below(100)))])];
+                self.queued = Some((Op::Modify(e.id, set), Meta { server: Some(1), ..Default::default() }));
+                if let Some(x) = self.ents.iter_mut().find(|x| x.id == e.id) {
+                    x.kind = 0;
+                }
+                return (Op::Modify(e.id, drop), Meta { server: Some(0), hold_repl: true, ..Default::default() });
+            }
+        }
+        let r = rng.below(100);
+        if self.kind.custom_schema() && r < 6 && self.attrs.len() < 6 {
+            return (self.add_attr(rng), schema);
+        }
+        if self.kind.custom_schema() && r < 11 && self.classes.len() < 4 {
+            return (self.add_class(rng), schema);
+        }
+        if self.kind.custom_schema() && r < 16 && !self.classes.is_empty() && !self.attrs.is_empty() {
+            // extension: one more `may` on a class (possibly in use)
+            let k = rng.below(self.classes.len() as u64) as usize;
+            let i = rng.below(self.attrs.len() as u64) as usize;
+            if !self.classes[k].may.contains(&i) && !self.classes[k].must.contains(&i) {
+                self.pending = Pending::AddMay(k, i);
+                return (Op::Modify(self.class_slot[k], vec![M::Present("may".into(), V::Iutf8(self.attrs[i].name.clone()))]), schema);
+            }
+        }
+        if r < 48 || self.ents.is_empty() {
+            return (self.create_entry(rng, heavy), Meta::default());
+        }
+        if r < 76 {
+            let e = self.ents[rng.below(self.ents.len() as u64) as usize].clone();
+            let ms = self.mods(rng, &e, heavy);
+            return (Op::Modify(e.id, ms), Meta::default());
+        }
+        if r < 82 && self.ents.len() >= 2 {
+            let e1 = self.ents[rng.below(self.ents.len() as u64) as usize].clone();
+            let e2 = self.ents[rng.below(self.ents.len() as u64) as usize].clone();
+            if e1.id != e2.id {
+                let m1 = self.mods(rng, &e1, heavy);
+                let m2 = self.mods(rng, &e2, heavy);
+                return (Op::Batch(vec![(e1.id, m1), (e2.id, m2)]), Meta::default());
+            }
+        }
+        if r < 91 || self.deleted.is_empty() {
+            let e = self.ents[rng.below(self.ents.len() as u64) as usize].clone();
+            self.pending = Pending::Deleted(e.id);
+            return (Op::Delete(e.id), Meta::default());
+        }
+        let id = self.deleted[rng.below(self.deleted.len() as u64) as usize].id;
+        // a revived entry is tracked again as a plain entry
+        self.pending = Pending::Revived(id);
+        (Op::Revive(id), Meta::default())
     }
-    if kind == Kind::Pair {
-        // spread over two servers: see `run_case` (server choice and replication points are drawn there)
-    }
-    (ops, narrow_at)
 }
 
 // ------------------------------------------------------------------------------------------
@@ -941,14 +1091,17 @@ fn observe(
         }
         res.count("refused-leaves-nothing-checked");
     }
-    // ---- schema sanity the theorems assume (CidNotRequired)
+    // ---- the two schema facts the theorems assume (`SchemaCidFacts`)
     if schema_changed {
-        for (n, c) in &sd.classes {
-            for a in c.lists[0].iter().chain(c.lists[1].iter()) {
-                if a == Attribute::LastModifiedCid.as_str() || a == Attribute::CreatedAtCid.as_str() {
-                    res.failures.push(Failure { kind: "assumption".into(), class: "cid-attribute-required-by-class".into(), input: input.clone(), expected: "no class requires last_modified_cid / created_at_cid".into(), observed: n.clone() });
-                }
-            }
+        let lm = Attribute::LastModifiedCid.as_str().to_string();
+        let ca = Attribute::CreatedAtCid.as_str().to_string();
+        let obj_ok = sd.classes.get(&c_name(EntryClass::Object)).map(|c| {
+            let req: Vec<&String> = c.lists[0].iter().chain(c.lists[1].iter()).collect();
+            req.contains(&&lm) && req.contains(&&ca)
+        });
+        let typed = [&lm, &ca].iter().all(|a| sd.attrs.get(*a).map(|d| d.syntax == "Cid").unwrap_or(true));
+        if obj_ok != Some(true) || !typed {
+            res.failures.push(Failure { kind: "assumption".into(), class: "schema-cid-facts".into(), input: input.clone(), expected: "class object requires last_modified_cid and created_at_cid, both of syntax Cid".into(), observed: format!("object requires both: {obj_ok:?}, cid-typed: {typed}") });
         }
     }
     // ---- oracle over every changed entry (every entry after a schema change)
@@ -1057,13 +1210,14 @@ fn run_case(seed: u64, case: u64, kind: Kind, heavy: bool, driver: &str) -> Case
         }
         vec![a, b]
     } else {
-        vec![rt.block_on(setup_test(TestConfiguration::default()))]
+        vec![rt.block_on(setup_test(TestConfiguration { domain_level: kind.boot_level(), ..Default::default() }))]
     };
     let mut drv = Driver::spawn(driver);
     let mut at = Atoms::new();
     let mut states: Vec<ServerState> = qs.iter().map(|_| ServerState { hashes: BTreeMap::new(), schema: SchemaD::default(), narrowed: false }).collect();
     let cx = Ctx { base: case % 1000 + 1000 * (kind as u64) };
-    let (ops, narrow_at) = gen_history(seed, case, kind, heavy);
+    let mut hist = Gen::new(seed, case, kind, heavy);
+    let mut hist = Gen::new(seed, case, kind, heavy);
     let input0 = json!({"seed": seed, "case": case, "kind": format!("{kind:?}")});
     // initial observation: the migrated database itself
     for (i, q) in qs.iter().enumerate() {
@@ -1075,27 +1229,46 @@ fn run_case(seed: u64, case: u64, kind: Kind, heavy: bool, driver: &str) -> Case
     let mut rng = Rng::for_case(seed ^ 0xC15C15, case);
     let mut accepted_ops = 0u64;
     let mut refused_schema = 0u64;
-    for (k, op) in ops.iter().enumerate() {
+    let mut k = 0usize;
+    let mut trace: Vec<String> = vec![];
+    while let Some((op, meta)) = hist.next_op() {
         ct += Duration::from_secs(1);
-        let input = json!({"seed": seed, "case": case, "kind": format!("{kind:?}"), "op_index": k, "op": format!("{op:?}")});
-        let target = if kind == Kind::Pair { rng.below(2) as usize } else { 0 };
-        let r = std::panic::catch_unwind(std::panic::AssertUnwindSafe(|| exec(&qs[target], &rt, ct, &cx, op)));
+        let last = hist.produced >= hist.target && hist.queued.is_none();
+        // schema is edited on the first server and replicated at once, entries on either
+        let target = match meta.server {
+            Some(s) if kind == Kind::Pair => s,
+            _ => if kind == Kind::Pair && !meta.schema_op { rng.below(2) as usize } else { 0 },
+        };
+        let input = json!({"seed": seed, "case": case, "kind": format!("{kind:?}"), "op_index": k, "server": target, "op": format!("{op:?}"), "history": trace});
+        LAST_PANIC.with(|p| p.borrow_mut().clear());
+        let r = std::panic::catch_unwind(std::panic::AssertUnwindSafe(|| exec(&qs[target], &rt, ct, &cx, &op)));
         let r = match r {
             Ok(r) => r,
             Err(_) => {
-                res.failures.push(Failure { kind: "impl-vs-oracle".into(), class: "operation-panicked".into(), input: input.clone(), expected: "Ok or Err".into(), observed: "panic".into() });
-                return res;
+                let msg = LAST_PANIC.with(|p| p.borrow().clone());
+                if msg.contains("assertion failed") || msg.contains("assertion `left") {
+                    // a debug assertion (typed accessor on an ill-typed value): debug builds only; the
+                    // transaction is dropped by the unwind, a release build answers with an error
+                    Err("DebugAssertion".to_string())
+                } else {
+                    res.failures.push(Failure { kind: "impl-vs-oracle".into(), class: "operation-panicked".into(), input: input.clone(), expected: "Ok or Err".into(), observed: format!("panic: {msg}") });
+                    return res;
+                }
             }
         };
         res.ops += 1;
+        hist.feedback(r.is_ok());
         let opname = format!("{op:?}");
         let opname = opname.split('(').next().unwrap_or("?").to_string();
+        trace.push(format!("{}@{target}:{}", opname, if r.is_ok() { "ok" } else { "refused" }));
         match &r {
             Ok(()) => {
                 accepted_ops += 1;
                 res.count(&format!("op:{opname}:ok"));
-                if let Some((_, what)) = narrow_at.iter().find(|(i, _)| *i == k) {
-                    states[target].narrowed = true;
+                if let Some(what) = &meta.narrowing {
+                    for st in states.iter_mut() {
+                        st.narrowed = true;
+                    }
                     res.count(&format!("narrowing-accepted:{what}"));
                 }
             }
@@ -1114,21 +1287,23 @@ fn run_case(seed: u64, case: u64, kind: Kind, heavy: bool, driver: &str) -> Case
             return res;
         }
         // replication points
-        if kind == Kind::Pair && (rng.chance(1, 4) || k + 1 == ops.len()) {
-            let rounds = if k + 1 == ops.len() { 2 } else { 1 };
+        if kind == Kind::Pair && !meta.hold_repl && (meta.schema_op || rng.chance(1, 4) || last) {
+            let rounds = if last { 2 } else { 1 };
             for _ in 0..rounds {
                 for (from, to) in [(0usize, 1usize), (1, 0)] {
                     ct += Duration::from_secs(1);
-                    let input = json!({"seed": seed, "case": case, "kind": "Pair", "op_index": k, "op": format!("Repl({from},{to})")});
+                    let input = json!({"seed": seed, "case": case, "kind": "Pair", "op_index": k, "op": format!("Repl({from},{to})"), "history": trace});
                     let rr = std::panic::catch_unwind(std::panic::AssertUnwindSafe(|| exec_repl(&qs, &rt, ct, from, to)));
                     match rr {
                         Ok(Ok(())) => res.count("op:Repl:ok"),
                         Ok(Err(e)) => res.count(&format!("op:Repl:err:{}", e.chars().take(40).collect::<String>())),
                         Err(_) => {
-                            res.failures.push(Failure { kind: "impl-vs-oracle".into(), class: "replication-panicked".into(), input: input.clone(), expected: "Ok or Err".into(), observed: "panic".into() });
+                            let msg = LAST_PANIC.with(|p| p.borrow().clone());
+                            res.failures.push(Failure { kind: "impl-vs-oracle".into(), class: "replication-panicked".into(), input: input.clone(), expected: "Ok or Err".into(), observed: format!("panic: {msg}") });
                             return res;
                         }
                     }
+                    trace.push(format!("Repl({from},{to})"));
                     if let Err(e) = observe(&qs[to], &rt, &mut drv, &mut at, &mut states[to], true, true, &input, &mut res) {
                         res.failures.push(Failure { kind: "harness".into(), class: "observe-failed".into(), input, expected: "".into(), observed: e });
                         return res;
@@ -1136,7 +1311,8 @@ fn run_case(seed: u64, case: u64, kind: Kind, heavy: bool, driver: &str) -> Case
                 }
             }
         }
-        if !res.failures.is_empty() && res.failures.iter().any(|f| f.kind == "impl-vs-oracle") {
+        k += 1;
+        if res.failures.iter().any(|f| f.kind == "impl-vs-oracle") {
             break;
         }
     }
@@ -1148,6 +1324,10 @@ fn run_case(seed: u64, case: u64, kind: Kind, heavy: bool, driver: &str) -> Case
 
 fn main() {
     let args = Args::parse();
+    std::panic::set_hook(Box::new(|info| {
+        let msg = info.to_string();
+        LAST_PANIC.with(|p| *p.borrow_mut() = msg);
+    }));
     let mut rep = Report::new(
         "schema-histories",
         "a history with at least 6 accepted operations and at least one operation refused for a schema violation, every stored entry re-checked after every operation",
@@ -1162,19 +1342,17 @@ fn main() {
         let kind = match inp["kind"].as_str().unwrap_or("Single") {
             "Narrow" => Kind::Narrow,
             "Pair" => Kind::Pair,
+            "Legacy" => Kind::Legacy,
+            "Upgrade" => Kind::Upgrade,
             _ => Kind::Single,
         };
         jobs.push((inp["case"].as_u64().expect("case"), kind));
     } else {
         seed = args.seed;
-        for i in 0..args.cases(36, 700) {
-            jobs.push((i, Kind::Single));
-        }
-        for i in 0..args.cases(8, 120) {
-            jobs.push((i, Kind::Narrow));
-        }
-        for i in 0..args.cases(10, 180) {
-            jobs.push((i, Kind::Pair));
+        for (kind, q, th) in [(Kind::Single, 14, 300), (Kind::Legacy, 16, 320), (Kind::Narrow, 8, 120), (Kind::Pair, 12, 220), (Kind::Upgrade, 6, 100)] {
+            for i in 0..args.cases(q, th) {
+                jobs.push((i, kind));
+            }
         }
     }
     let threads = if args.replay.is_some() { 1 } else { 8 };
@@ -1225,7 +1403,7 @@ fn main() {
     if args.replay.is_none() {
         let h = rep.histogram.clone();
         let need = |k: &str| h.iter().filter(|(n, _)| n.starts_with(k)).map(|(_, v)| *v).sum::<u64>();
-        for (k, min) in [("refused:", 10u64), ("op:Create:ok", 50), ("op:Modify:ok", 30), ("op:Delete:ok", 5), ("op:Revive:ok", 1), ("op:Repl:ok", 10), ("schema-reloads-observed", 20), ("checked:recycled", 5), ("narrowing-accepted:", 1), ("excluded:narrowing:", 1)] {
+        for (k, min) in [("refused:", 10u64), ("op:Create:ok", 50), ("op:Modify:ok", 30), ("op:Delete:ok", 5), ("op:Revive:ok", 1), ("op:Repl:ok", 10), ("schema-reloads-observed", 20), ("op:Raise:ok", 2), ("checked:conflict", 1), ("checked:recycled", 5), ("narrowing-accepted:", 1), ("excluded:narrowing:", 1)] {
             if need(k) < min {
                 rep.fail(Failure { kind: "generator".into(), class: "coverage-floor".into(), input: json!({"key": k}), expected: format!(">= {min}"), observed: format!("{}", need(k)) });
             }
